@@ -286,6 +286,8 @@ func (p *Program) publishesRequest(cc *ssa.CallCommon) ssa.Value {
 
 func runC11(c *Ctx) {
 	p := c.P
+	checkSlotClearedAfterFetch(c, "R22")
+	checkCloserClearsItsSlot(c, "R23")
 	pos := func(in ssa.Instruction) string { return p.Pos(in.Pos()) }
 
 	// ---------- R1 handle uniqueness ----------
